@@ -137,6 +137,21 @@ WMoveBack ==
            @@ (B :> LibB(B)) @@ (C :> LibC(C)),
          {}, <<A>>, {S}, {T}, {}, {}, {})
 
+\* Sibling modules whose rendered names extend one another textually (b / b2, t / t2; see NAMES in
+\* bind/_pymodules.py): a request that must add  import p.t  meets an existing  import p.t2 , and the
+\* moved code's own imports are  import p.b2  followed by  import p.b .
+PT == <<"p", "t">>
+PT2 == <<"p", "t2">>
+PB2 == <<"p", "b2">>
+WMoveSib ==
+  MWorld("movesib",
+         (A :> <<>>) @@ (P :> <<>>) @@ (PB :> LibB(PB)) @@ (PB2 :> LibC(PB2)) @@ (PT :> <<>>) @@ (PT2 :> LibC(PT2))
+           @@ (T :> <<>>)
+           @@ (S :> <<Import(<<ImpItem(PB2, "")>>), Import(<<ImpItem(PB, "")>>),
+                      FnR("f", S, <<<<"p", "b", "g">>>>), Fn("k", S)>>),
+         {P}, <<A>>, {S}, {PT, T}, {}, {}, {})
+WorldsMoveSib == {WMoveSib}
+
 WorldsMove == {WMove, WMoveBusy, WMoveBack}
 WorldsMovePkg == {WMovePkg, WMovePkgIn}
 
@@ -179,6 +194,7 @@ MCRank ==
   ("*" :> 0) @@ ("_h" :> 1) @@ ("x" :> 2) @@ ("y" :> 3) @@ ("f" :> 4) @@ ("k" :> 5)
   @@ ("a" :> 6) @@ ("b" :> 7) @@ ("c" :> 8) @@ ("d" :> 9) @@ ("e" :> 10) @@ ("s" :> 11) @@ ("t" :> 12)
   @@ ("g" :> 13) @@ ("h" :> 14) @@ ("p" :> 15) @@ ("q" :> 16) @@ ("r" :> 17) @@ ("v" :> 18) @@ ("w" :> 19)
+  @@ ("b2" :> 7) @@ ("t2" :> 12)
 
 AllPrefs == [split : BOOLEAN, top : BOOLEAN, alpha : BOOLEAN]
 DefaultPrefs == {[split |-> FALSE, top |-> TRUE, alpha |-> FALSE]}
